@@ -74,9 +74,37 @@ def gen(run):
                                 continue
                             for init in (False, True):
                                 cases.append({"pos": pname, "kind": kind, "ref": ref, "nd": nd, "stmt": stmt, "dim": dim, "storage": storage, "cfg": cfg, "init": init})
+    # the same variable occurrences inside every arm of IF chains / a FOR body (a declaration pass that skips an arm leaves them undeclared)
+    for pname, applies, tpl in POSITIONS:
+        if pname not in ("assign-target", "rhs", "print", "concat", "in-conv"):
+            continue
+        for kind in applies:
+            if kind == "n":
+                continue
+            ref, nd = kinds[kind][0]
+            isstr = kind in "sz"
+            fill = {"v": ref, "lit": '"S"' if isstr else "5", "z": "Z$" if isstr else "Z", "bi": f"LEN( {ref} )" if isstr else f"ABS( {ref} )", "cmp": f'{ref} = "X"' if isstr else f"{ref} = 1"}
+            stmt = tpl.format(**fill)
+            for cname, ctpl in ARM_CONTEXTS:
+                for dim in ([None, "3"] if kind in "az" else [None, "scalar"]):
+                    for storage in (32, 80):
+                        cases.append({"pos": pname, "kind": kind, "ref": ref, "nd": nd, "stmt": ctpl.replace("{}", stmt), "dim": dim, "storage": storage, "cfg": "none", "init": True, "ctx": cname})
     run.states += len(cases)
     run.transitions += len(cases)
     return cases
+
+
+ARM_CONTEXTS = [
+    ("then", "IF X = 1 THEN {}"),
+    ("else", "IF X = 1 THEN PRINT 1 ELSE {}"),
+    ("elseif-arm", "IF X = 1 THEN PRINT 1 ELSE IF X = 2 THEN {} ELSE PRINT 3"),
+    ("elseif-final-else", "IF X = 1 THEN PRINT 1 ELSE IF X = 2 THEN PRINT 2 ELSE {}"),
+    ("elseif2-final-else", "IF X = 1 THEN PRINT 1 ELSE IF X = 2 THEN PRINT 2 ELSE IF X = 3 THEN PRINT 3 ELSE {}"),
+    ("nested-then", "IF X = 1 THEN IF Y = 2 THEN {} ELSE PRINT 4"),
+    ("nested-else", "IF X = 1 THEN IF Y = 2 THEN PRINT 4 ELSE {}"),
+    ("for-body", "FOR I = 1 TO 2 : {} : NEXT I"),
+    ("after-colon", "X = 1 : {}"),
+]
 
 
 def build(c):
@@ -180,7 +208,7 @@ def judge(c):
 
 
 def feats(c):
-    f = {"pos:" + c["pos"], "kind:" + c["kind"], "dimmed" if c["dim"] else "not-dimmed", "storage:%d" % c["storage"], "cfg:" + c["cfg"]}
+    f = ({"ctx:" + c["ctx"]} if c.get("ctx") else set()) | {"pos:" + c["pos"], "kind:" + c["kind"], "dimmed" if c["dim"] else "not-dimmed", "storage:%d" % c["storage"], "cfg:" + c["cfg"]}
     if c["nd"]:
         f.add("subscripts:%d" % c["nd"])
         if c["nd"] >= 2 and not c["dim"]:
